@@ -65,7 +65,7 @@ func TestC03(t *testing.T) {
 }
 
 func TestC17(t *testing.T) {
-	runProfile(t, profIgnore, runOpts{weights: ignoreWeights, seedFiles: 2, pre: func(g *G) []Step {
+	runProfile(t, profIgnore, runOpts{weights: ignoreWeights, seedFiles: 2, decorate: true, pre: func(g *G) []Step {
 		if g.Chance(65, "withIgnore") {
 			return []Step{{Op: "write", Path: ".goitignore", Data: g.IgnoreFile()}}
 		}
